@@ -307,6 +307,12 @@ def generate_and_run(rng, profile, max_client_ops=None):
                 do(["sethistory", [rng.randrange(NTRACKS) for _ in range(n)]])
             if rng.random() < 0.6:
                 settle()
+            a = runner.env.audio
+            if a.uri is not None and rng.random() < 0.3:
+                # boundary positions: exactly at the recorded length, one before, one after
+                ln = runner.env.lengths[runner.env.index_of_uri(a.uri)]
+                if ln is not None and ln - a.pos > 0 and a.state == "playing":
+                    do(["tick", ln - a.pos + rng.choice([0, 0, -1, 1])])
             cov = [True] * 5 if rng.random() < 0.6 else [rng.random() < 0.6 for _ in range(5)]
             do(["save"])
             do(["load", cov])
